@@ -6,6 +6,7 @@ mutator, the backend then holds exactly the body's result.
 -/
 import SC.Lemmas.Attach
 import SC.Lemmas.Seq
+import SC.Lemmas.IdInv
 namespace SC
 open Tr
 
@@ -91,6 +92,125 @@ theorem call_root_refines (s : State) (oi : Nat) (o : Obj) (d : J) (op : Op)
     simp only [hr, if_true]
     have : (applyBody (loadRoot s oi).1 (.root oi) oi
         (runBody (s.fam o) (updNode (s.fam o) o.root d s.next).val op (loadRoot s oi).1.next)).stores = s.stores := by
+      rw [applyBody_stores, loadRoot_stores]
+    split <;> exact this
+
+/-! ### child handles -/
+
+theorem findSome?_at {α β : Type} (f : α → Option β) : ∀ (l : List α) (i : Nat) (a : α) (b : β),
+    l[i]? = some a → f a = some b → (∀ j a', j < i → l[j]? = some a' → f a' = none) →
+    l.findSome? f = some b
+  | [], i, _, _, h, _, _ => by simp at h
+  | x :: xs, 0, a, b, h, hf, _ => by
+    simp only [List.getElem?_cons_zero, Option.some.injEq] at h; subst h
+    simp [List.findSome?, hf]
+  | x :: xs, i + 1, a, b, h, hf, hn => by
+    simp only [List.getElem?_cons_succ] at h
+    have hx : f x = none := hn 0 x (by omega) (by simp)
+    simp only [List.findSome?, hx]
+    exact findSome?_at f xs i a b h hf (fun j a' hj ha' => hn (j + 1) a' (by omega) (by simpa using ha'))
+
+/-- the node a handle denotes, when its identity occurs in object `oi`'s tree and in no earlier one -/
+theorem findNode_at (s : State) (oi id : Nat) (o : Obj) (c : T)
+    (ho : s.objs[oi]? = some o) (hf : Tr.find id o.root = some c)
+    (hother : ∀ j o', j < oi → s.objs[j]? = some o' → Tr.find id o'.root = none) :
+    findNode s id = some c := by
+  unfold findNode
+  rw [findSome?_at (fun o => Tr.find id o.root) s.objs oi o c ho hf hother]
+
+/-- THE REFINEMENT STEP FOR A CHILD HANDLE.  The user holds a nested collection: the node with
+identity `id`, which sits at path `p` (any depth) of object `oi`'s tree.  The backend currently
+holds `d` (written by whoever), valid, with containers of the same kind along `p`; `oi`'s memory is
+ARBITRARY otherwise.  Identities in `oi`'s tree are pairwise distinct (they are Python objects) and
+`id` occurs in no object before `oi`.  Then a call through the handle: loads the ROOT, after which
+the handle still denotes the node at `p` — same identity — whose content is exactly the data at `p`;
+runs the body on that node; and (mutators) leaves the backend holding the merged content with the
+body's result AT PATH `p` and everything else as the backend had it. -/
+theorem call_child_refines (s : State) (oi id : Nat) (o : Obj) (d : J) (p : List Seg) (c : T) (op : Op)
+    (ho : s.objs[oi]? = some o) (hst : s.store o.res = some d) (hown : s.ownerOf id = some oi)
+    (hsub : Tr.sub p o.root = some c) (hid : c.id? = some id)
+    (hnd : (Tr.ids o.root).Nodup) (hlt : ∀ i ∈ Tr.ids o.root, i < s.next)
+    (hother : ∀ j o', j < oi → s.objs[j]? = some o' → id ∉ Tr.ids o'.root)
+    (hv : Valid (s.fam o) d) (hwd : d.wf = true) (hwt : o.root.wf = true)
+    (hk : kindsMatch p o.root d = true) (hns : op.skipsLoad = false)
+    (hpre : preValidate (s.fam o) c.isDict op = none) :
+    ∃ c' dc, Tr.sub p (updNode (s.fam o) o.root d s.next).val = some c' ∧ c'.id? = some id ∧
+      Tr.sub p d = some dc ∧ Eqv c' dc ∧
+      Eqv (updNode (s.fam o) o.root d s.next).val d ∧
+      (call s (.node id) op).2 =
+        (match (runBody (s.fam o) c' op (loadRoot s oi).1.next).err with
+         | some e => .error e
+         | none => .ok (runBody (s.fam o) c' op (loadRoot s oi).1.next).out) ∧
+      (op.isRead = false → (call s (.node id) op).1.store o.res =
+        some (Tr.setSub p (updNode (s.fam o) o.root d s.next).val.toBase
+          (runBody (s.fam o) c' op (loadRoot s oi).1.next).node.toBase)) ∧
+      (op.isRead = true → (call s (.node id) op).1.stores = s.stores) := by
+  have hlto : oi < s.objs.length := (List.getElem?_eq_some_iff.mp ho).1
+  have hkroot : sameKind o.root d = true := kindsMatch_sameKind p o.root d hk
+  have hnn : d ≠ .leaf .null := by
+    intro h; subst h; cases hr : o.root <;> simp [hr, sameKind] at hkroot
+  obtain ⟨herr, c0, c', h1, h2, h3, h4⟩ := attach (s.fam o) p o.root d s.next hv hwd hwt hk
+  rw [hsub] at h1
+  simp only [Option.some.injEq] at h1
+  subst h1
+  have hid' : c'.id? = some id := by rw [h3, hid]
+  have hpost := updNode_post (s.fam o) d o.root s.next hwd hwt hnn herr
+  obtain ⟨dc, hdc, hcdc⟩ := eqv_sub p _ d c' hpost.1 h2
+  have hids := updNode_ids (s.fam o) d o.root s.next hnd hlt
+  -- the state after the load
+  have hload := loadRoot_eq s oi o d ho hst
+  have hlf : loadFor s oi false op = loadRoot s oi := by simp [loadFor, hns]
+  have hobjs1 : (loadRoot s oi).1.objs = s.objs.set oi { o with root := (updNode (s.fam o) o.root d s.next).val } := by
+    rw [hload]
+    show ((State.own _ _ _ _).objs) = _
+    rw [objs_own]
+    rfl
+  have hobj1 : (loadRoot s oi).1.objs[oi]? = some { o with root := (updNode (s.fam o) o.root d s.next).val } := by
+    rw [hobjs1]; exact List.getElem?_set_self hlto
+  have herr1 : (loadRoot s oi).2 = none := by rw [hload]; exact herr
+  -- the handle before and after the load
+  have hfind0 : findNode s id = some c :=
+    findNode_at s oi id o c ho (find_of_sub p o.root c id hnd hsub hid)
+      (fun j o' hj ho' => find_none_of_not_mem id o'.root (hother j o' hj ho'))
+  have hfind1 : findNode (loadRoot s oi).1 id = some c' := by
+    refine findNode_at _ oi id _ c' hobj1 (find_of_sub p _ c' id hids.2.1 h2 hid') ?_
+    intro j o' hj ho'
+    rw [hobjs1, List.getElem?_set_ne (by omega)] at ho'
+    exact find_none_of_not_mem id o'.root (hother j o' hj ho')
+  have hownr : handleOwner s (.node id) = some (oi, false) := by simp [handleOwner, hown]
+  have hn0 : handleNode s (.node id) = some c := hfind0
+  have hnode1 : handleNode (loadRoot s oi).1 (.node id) = some c' := hfind1
+  refine ⟨c', dc, h2, hid', hdc, hcdc, hpost.1, ?_, ?_, ?_⟩
+  all_goals
+    unfold call
+    simp only [hownr, hn0, ho]
+    unfold callOn
+    simp only [hpre, hlf, herr1, hnode1]
+    unfold finishCall
+  · simp only
+    cases (runBody (s.fam o) c' op (loadRoot s oi).1.next).err <;> rfl
+  · intro hm
+    simp only [hm, Bool.false_eq_true, if_false]
+    have hsave : ∀ (x : State) (ob : Obj), x.objs[oi]? = some ob → (saveRoot x oi).store ob.res = some ob.root.toBase := by
+      intro x ob hx
+      unfold saveRoot; simp only [hx]; exact State.store_setStore _ _ _
+    have hobj2 : (applyBody (loadRoot s oi).1 (.node id) oi
+        (runBody (s.fam o) c' op (loadRoot s oi).1.next)).objs[oi]? =
+        some { o with root := (Tr.replace id (runBody (s.fam o) c' op (loadRoot s oi).1.next).node
+          (updNode (s.fam o) o.root d s.next).val) } := by
+      unfold applyBody
+      show ((State.own _ _ _ _).objs)[oi]? = _
+      rw [objs_own]
+      unfold putNode replaceNode
+      simp only [List.getElem?_map, hobj1, Option.map_some]
+    have := hsave _ _ hobj2
+    simp only at this
+    rw [replace_of_sub _ p _ c' id hids.2.1 h2 hid', toBase_setSub] at this
+    split <;> exact this
+  · intro hr
+    simp only [hr, if_true]
+    have : (applyBody (loadRoot s oi).1 (.node id) oi
+        (runBody (s.fam o) c' op (loadRoot s oi).1.next)).stores = s.stores := by
       rw [applyBody_stores, loadRoot_stores]
     split <;> exact this
 
